@@ -135,6 +135,14 @@ def run_check(prop: Prop, tier: str, seed: int) -> int:
         proof["log"] = "required theorems missing from property file: " + ", ".join(missing)
         proof["broken"] = proof["property_file"]
 
+    if tier == "thorough" and proof_ok:
+        chk = core.coqchk_step(pid)
+        proof["coqchk"] = chk
+        if not chk["ok"]:
+            proof_ok = False
+            proof["log"] = "coqchk: " + chk["summary"]
+            proof["broken"] = f"coqchk theories/Properties/{pid}.vo"
+
     # 2. cases, implementation, oracle
     cases = []
     seen = set()
@@ -336,9 +344,7 @@ def run_check(prop: Prop, tier: str, seed: int) -> int:
             "evaluations": len(cases),
             "distinct_nontrivial": len(keys),
             "rule": prop.rule(),
-            "samples": [
-                {"case": cases[i], "implementation": observations[i]} for i in sample_idx
-            ],
+            "samples": [small_sample(cases[i], observations[i]) for i in sample_idx],
             "distribution": dict(sorted(dist.items())),
             "correspondence": {
                 "cases_evaluated_in_coq": len(serial),
@@ -374,6 +380,15 @@ def run_check(prop: Prop, tier: str, seed: int) -> int:
     if not os.environ.get("VERIF_KEEP_BUILD"):
         core.clean_build(pid)
     return 1 if violations else 0
+
+
+def small_sample(case, obs, limit=6000):
+    """a case written out for the evidence file; very large ones (specimens) are abbreviated"""
+    blob = json.dumps({"case": case, "implementation": obs}, default=str)
+    if len(blob) <= limit:
+        return {"case": case, "implementation": obs}
+    return {"gen": case.get("gen") if isinstance(case, dict) else None, "abbreviated": True, "json_bytes": len(blob),
+            "head": blob[:1500]}
 
 
 def model_value(prop: Prop, case, obs):
